@@ -161,6 +161,7 @@ pub fn generate(property: &str, seed: u64, tier: Tier) -> Plan {
             "system_folders": r.chance(1,2),
             "rewrite": rewrite,
             "access": if property == "C11" { r.below(4) } else { 0 },
+            "b_exists_first": r.chance(1,2),
         }),
         steps,
     }
@@ -270,7 +271,7 @@ pub async fn execute(plan: Plan, dir: &Path) -> RunOutcome {
     // C11: a second account, possibly excluded by the server's access lists
     let access = ju64(&cfg, "access");
     let mut extra: Vec<NetDevice> = vec![];
-    let mut server_cfg = None;
+    let mut server_cfg: Option<sos_server::ServerConfig> = None;
     let access_mode = ["none", "allow_list_without_b", "deny_list_with_b", "b_on_allow_and_deny_list"][(access % 4) as usize].to_string();
     if prop == "C11" {
         match Device::create("e0", &dir.join("e0"), BackendKind::Fs, "other account password 2", false).await {
@@ -299,6 +300,11 @@ pub async fn execute(plan: Plan, dir: &Path) -> RunOutcome {
             Err(e) => harness_err!(rec, plan, format!("create second account: {e}")),
         }
     }
+    // when the second account is to exist on the server *before* it is
+    // excluded, the server first runs without access lists and is restarted
+    // with them once the account has been created
+    let b_exists_first = prop == "C11" && jbool(&cfg, "b_exists_first") && access % 4 != 0;
+    let restricted_cfg = if b_exists_first { server_cfg.take() } else { None };
     let server = match SimServer::start(&dir.join("server"), jbool(&cfg, "server_db"), server_cfg).await {
         Ok(s) => s,
         Err(e) => harness_err!(rec, plan, format!("server: {e}")),
@@ -345,8 +351,31 @@ pub async fn execute(plan: Plan, dir: &Path) -> RunOutcome {
         match SimBridge::new(&world.net, 50, shared, world.extra[0].online.clone()).await {
             Ok(b) => {
                 let r = b.execute_sync(&SyncOptions::default()).await;
-                let excluded = world.access_mode != "none";
+                let mut excluded = world.access_mode != "none";
+                if let Some(cfg2) = restricted_cfg {
+                    // the account exists now; restart the server with the
+                    // access lists that exclude it
+                    if r.is_err() {
+                        harness_err!(rec, plan, format!("second account sync before restriction: {:?}", r.err().map(|e| e.to_string())));
+                    }
+                    rec.stats.probe("c11.account_excluded_after_it_existed");
+                    world.net.set_router(None);
+                    let db = world.server.use_db;
+                    let sdir = world.server.dir.clone();
+                    match SimServer::start(&sdir, db, Some(cfg2)).await {
+                        Ok(s2) => {
+                            world.net.set_router(Some(s2.router.clone()));
+                            world.server = s2;
+                        }
+                        Err(e) => harness_err!(rec, plan, format!("server restart: {e}")),
+                    }
+                    world.excluded_device = Some(0);
+                    excluded = false; // handled: skip the create-by-sync judgement below
+                    world.extra[0].bridge = Some(b.clone());
+                }
+                let already = world.excluded_device.is_some();
                 match (&r, excluded) {
+                    _ if already => {}
                     (Ok(_), false) => world.other_account = Some(world.extra[0].dev.account_id),
                     (Ok(_), true) => {
                         rec.violate(
